@@ -32,6 +32,10 @@ struct Bundler {
     /// cached files with an import that did not resolve when they were parsed: the target may exist
     /// by the next build, so they are parsed again then
     pub unresolved: HashSet<BffFileName>,
+    /// what every import specifier of a cached file resolved to when the file was parsed: a file
+    /// created (or removed) since may give a specifier another answer ("./c" is c/index.ts until
+    /// c.ts exists), so the answers are checked again before each build
+    pub resolutions: HashMap<BffFileName, Vec<(String, Option<BffFileName>)>>,
 }
 
 impl Bundler {
@@ -39,6 +43,7 @@ impl Bundler {
         Bundler {
             files: HashMap::new(),
             unresolved: HashSet::new(),
+            resolutions: HashMap::new(),
         }
     }
 }
@@ -104,6 +109,7 @@ fn parse_entrypoints(parser_entry_point: &str, settings: &str) -> EntryPoints {
 struct LazyFileManager<'a> {
     pub files: &'a mut HashMap<BffFileName, Rc<ParsedModule>>,
     pub unresolved: &'a mut HashSet<BffFileName>,
+    pub resolutions: &'a mut HashMap<BffFileName, Vec<(String, Option<BffFileName>)>>,
 }
 
 impl FileManager for LazyFileManager<'_> {
@@ -118,6 +124,8 @@ impl FileManager for LazyFileManager<'_> {
         match res {
             Ok(f) => {
                 self.files.insert(file_name.clone(), f.clone());
+                self.resolutions
+                    .insert(file_name.clone(), resolver.resolutions());
                 if resolver.had_unresolved() {
                     self.unresolved.insert(file_name.clone());
                 }
@@ -153,9 +161,26 @@ fn run_extraction(entry: EntryPoints) -> ParserExtractResult {
             for f in b.unresolved.drain() {
                 b.files.remove(&f);
             }
+            // ... and so are the files one of whose specifiers the host now answers differently
+            let stale: Vec<BffFileName> = b
+                .resolutions
+                .iter()
+                .filter(|(file, table)| {
+                    table.iter().any(|(specifier, before)| {
+                        resolve_import(file.to_string().as_str(), specifier).map(BffFileName::new)
+                            != *before
+                    })
+                })
+                .map(|(file, _)| file.clone())
+                .collect();
+            for f in stale {
+                b.files.remove(&f);
+                b.resolutions.remove(&f);
+            }
             let mut man = LazyFileManager {
                 files: &mut b.files,
                 unresolved: &mut b.unresolved,
+                resolutions: &mut b.resolutions,
             };
 
             // res.self_check_sem_types();
@@ -186,10 +211,10 @@ fn bundle_to_diagnostics_inner(entry: EntryPoints) -> WasmDiagnostic {
 
 fn update_file_content_inner(file_name: &str, content: &str) {
     let file_name = BffFileName::new(file_name.to_string());
-    let (res, had_unresolved) = GLOBALS.set(&SWC_GLOBALS, || {
+    let (res, had_unresolved, resolutions) = GLOBALS.set(&SWC_GLOBALS, || {
         let mut resolver = WasmModuleResolver::new();
         let res = parse_and_bind(&mut resolver, &file_name, content);
-        (res, resolver.had_unresolved())
+        (res, resolver.had_unresolved(), resolver.resolutions())
     });
     BUNDLER.with(|b| {
         let mut b = b.borrow_mut();
@@ -200,12 +225,14 @@ fn update_file_content_inner(file_name: &str, content: &str) {
                 } else {
                     b.unresolved.remove(&file_name);
                 }
+                b.resolutions.insert(file_name.clone(), resolutions);
                 b.files.insert(file_name, f);
             }
             // the previous parse no longer describes the file: drop it, so that the next build
             // reads the file again and reports it the way a first build would
             Err(_) => {
                 b.files.remove(&file_name);
+                b.resolutions.remove(&file_name);
             }
         }
     })
